@@ -68,7 +68,7 @@ func runSLIMIT(e *Env) (*Summary, error) {
 		kvql.PlanBatchSize = bs
 		type job struct {
 			size, s, n int
-			short    bool
+			short      bool
 		}
 		var jobs []job
 		for size := 0; size <= min(maxSize, 3*bs+2); size++ {
